@@ -19,6 +19,9 @@
 #include <stdio.h>
 #include <stdlib.h>
 #include <string.h>
+#include <sys/stat.h>
+#include <sys/types.h>
+#include <unistd.h>
 
 extern _Atomic(int) instr_table_index[26];
 extern _Atomic(int) opd_format_table_index[26];
@@ -28,9 +31,12 @@ extern _Atomic(int) opd_format_table_index[26];
 #define MAXLOG 200000
 
 /* work items: (options, chunk, counting, program) - private per thread */
-struct item { int mov, swap, nobase, chunk, count; const char *text; };
+struct item { int mov, swap, nobase, chunk, count; const char *text; int usefile; };
 static const struct item ITEMS[] = {
     {2, 1, 1, 0, 0, "mov rax, 0x5\nadd rax, rcx\nlea rdx, [rax+rsp]\nlea rcx, [2*rax]\nret\n"},
+    /* the file entry points (files of different sizes, private to the item): placed so that two threads run them side by side */
+    {2, 1, 1, 0, 0, "mov rax, 0x5\nret\n", 1},
+    {0, 1, 0, 0, 8, "vpaddb ymm1, ymm2, [rax+r9*4]\nadd rax, rcx\nlea rdx, [rax+rsp]\nmov rax, 0x1122334455667788\npush r11w\nshl rax, 0x5\nnop9\nret\n", 1},
     {0, 0, 0, 8, 0, "mov rax, 0x1122334455667788\nvpaddb ymm1, ymm2, [rax+r9*4]\npush r11w\nshl rax, 0x5\nret\n"},
     {1, 1, 0, 0, 16, "xor eax, eax\nimul rax, rcx, 0x12345\nmovq xmm1, rax\nbzhi ecx, [r13+rcx*4], r10d\njne -0x1000\nret\n"},
     {2, 0, 1, 16, 0, "paddb mm1, [rax]\nsetc al\ncmovne rax, r11\nmulx r8, r9, [rsi]\nmov qword [rax+0x12345], 0x5\nret\n"},
@@ -40,6 +46,9 @@ static const struct item ITEMS[] = {
 
 struct result { int ret, off, dest; unsigned hash; };
 
+static char item_path[16][300];
+static __thread int in_work = 0;
+static void os_yield(int id);
 static unsigned hash30(const unsigned char *p, int n) {
   unsigned h = 2166136261u;
   for (int i = 0; i < n; i++) { h ^= p[i]; h *= 16777619u; }
@@ -54,9 +63,12 @@ static void work(const struct item *it, unsigned char *buf, struct result *r) {
   asm_sib_index_base_swap(al, ov(it->swap));
   asm_sib_no_base(al, ov(it->nobase));
   if (it->chunk) asm_set_chunk_size(al, it->chunk);
-  char *txt = strdup(it->text);
+  char *txt = strdup(it->usefile ? item_path[it - ITEMS] : it->text);
   r->dest = -7;
-  r->ret = it->count ? asm_assemble_string_counting_chunks(al, txt, it->count, &r->dest) : asm_assemble_str(al, txt);
+  in_work = 1;
+  if (it->usefile) r->ret = it->count ? asm_assemble_file_counting_chunks(al, txt, it->count, &r->dest) : asm_assemble_file(al, txt);
+  else r->ret = it->count ? asm_assemble_string_counting_chunks(al, txt, it->count, &r->dest) : asm_assemble_str(al, txt);
+  in_work = 0;
   free(txt);
   r->off = asm_get_offset(al);
   r->hash = hash30(buf, r->off > 0 && r->off < CAPB ? r->off : 0);
@@ -93,10 +105,19 @@ static void on_tbl(int is_store, int tbl, int idx, int val) {
     }
     holder = me;
   }
-  int seen = is_store ? val : (tbl == 0 ? instr_table_index[idx] : opd_format_table_index[idx]);
+  int seen = is_store ? val : tbl == 2 ? 0 : (tbl == 0 ? instr_table_index[idx] : opd_format_table_index[idx]);
   if (nlog < MAXLOG) { alog[nlog].th = me; alog[nlog].s = is_store; alog[nlog].t = tbl; alog[nlog].i = idx; alog[nlog].v = seen; nlog++; }
   pthread_mutex_unlock(&mu);
 }
+
+/* OS calls of the file entry points are yield points too (table id 2: no shared cell behind them in the model); a yield
+ * before AND after each call, so that another thread can run between the kernel filling a result and the library using it */
+static void os_yield(int id) { if (in_work && me != 0 && al_verif.tbl == on_tbl) on_tbl(0, 2, id, 0); }
+int __real_open(const char *, int, ...); int __real_fstat(int, struct stat *); ssize_t __real_read(int, void *, size_t); int __real_close(int);
+int __wrap_open(const char *p, int fl, ...) { os_yield(0); int r = __real_open(p, fl, 0); os_yield(1); return r; }
+int __wrap_fstat(int fd, struct stat *st) { os_yield(2); int r = __real_fstat(fd, st); os_yield(3); return r; }
+ssize_t __wrap_read(int fd, void *b, size_t n) { os_yield(4); ssize_t r = __real_read(fd, b, n); os_yield(5); return r; }
+int __wrap_close(int fd) { os_yield(6); int r = __real_close(fd); os_yield(7); return r; }
 
 struct targ { int id, rounds; struct result *res; };
 static void *thread_main(void *p) {
@@ -144,6 +165,16 @@ int main(int argc, char **argv) {
   if (argc < 2) return 2;
   if (!freopen("/dev/null", "w", stderr)) return 2;
   alog = malloc(sizeof(struct acc) * MAXLOG);
+  /* item files (private directory given by the driver) */
+  const char *dir = getenv("THR_DIR");
+  for (int k = 0; k < NITEMS; k++)
+    if (ITEMS[k].usefile) {
+      snprintf(item_path[k], sizeof item_path[k], "%s/item%d.asm", dir ? dir : ".", k);
+      FILE *f = fopen(item_path[k], "w");
+      if (!f) return 2;
+      fputs(ITEMS[k].text, f);
+      fclose(f);
+    }
   struct result ref[NITEMS];
   unsigned char *buf = malloc(CAPB);
   /* single-threaded reference (hooks not installed yet) */
